@@ -82,7 +82,8 @@ func request(env *object.Env, kwargs *object.PanObj, args ...object.PanObject) o
 }
 
 func addHeaders(headersObj *object.PanObj, headers http.Header) *object.PanErr {
-	for k, v := range *headersObj.Pairs {
+	for _, k := range sortedKeys(headersObj) {
+		v := (*headersObj.Pairs)[k]
 		keyObj, _ := object.SymHash2Str(k)
 		key := keyObj.(*object.PanStr).Value
 
@@ -96,10 +97,23 @@ func addHeaders(headersObj *object.PanObj, headers http.Header) *object.PanErr {
 	return nil
 }
 
+// sortedKeys returns all keys of obj in fixed order (so that which pair is reported first does not depend on map iteration).
+func sortedKeys(obj *object.PanObj) []object.SymHash {
+	keys := []object.SymHash{}
+	if obj.Keys != nil {
+		keys = append(keys, *obj.Keys...)
+	}
+	if obj.PrivateKeys != nil {
+		keys = append(keys, *obj.PrivateKeys...)
+	}
+	return keys
+}
+
 func addQueries(u *url.URL, queryObj *object.PanObj) *object.PanErr {
 	// queries cannot be added directly because u may already contain other queries
 	q := u.Query()
-	for k, v := range *queryObj.Pairs {
+	for _, k := range sortedKeys(queryObj) {
+		v := (*queryObj.Pairs)[k]
 		keyObj, _ := object.SymHash2Str(k)
 		key := keyObj.(*object.PanStr).Value
 
